@@ -377,6 +377,11 @@ func (p *PikeVM) SetLongest(longest bool) {
 	p.internalState.Longest = longest
 }
 
+// IsLongest reports whether leftmost-longest matching is enabled (see SetLongest).
+func (p *PikeVM) IsLongest() bool {
+	return p.internalState.Longest
+}
+
 // newCaptures creates a new COW capture slots initialized to -1 (unset)
 func (p *PikeVM) newCaptures() cowCaptures {
 	numSlots := p.nfa.CaptureCount() * 2 // Each group has start and end
